@@ -112,3 +112,43 @@ pub fn v_starts_with(s: &str, pat: &str) -> (r: bool) { s.starts_with(pat) }
 pub fn v_starts_with_char(s: &str, c: char) -> (r: bool) { s.starts_with(c) }
 #[verifier::external_body]
 pub fn v_split_once<'a>(s: &'a str, c: char) -> (r: Option<(&'a str, &'a str)>) { s.split_once(c) }
+
+// --- anyhow::Error: any std error converts into it (blanket From impl of anyhow); its content is diagnostic
+impl From<errors::KeyringError> for AnyhowError { #[verifier::external_body] fn from(e: errors::KeyringError) -> AnyhowError { AnyhowError } }
+impl From<kestrel_crypto::DhError> for AnyhowError { #[verifier::external_body] fn from(e: kestrel_crypto::DhError) -> AnyhowError { AnyhowError } }
+impl From<vio::Error> for AnyhowError { #[verifier::external_body] fn from(e: vio::Error) -> AnyhowError { AnyhowError } }
+impl vstd::std_specs::convert::FromSpecImpl<errors::KeyringError> for AnyhowError {
+    open spec fn obeys_from_spec() -> bool { false }
+    uninterp spec fn from_spec(e: errors::KeyringError) -> AnyhowError;
+}
+impl vstd::std_specs::convert::FromSpecImpl<kestrel_crypto::DhError> for AnyhowError {
+    open spec fn obeys_from_spec() -> bool { false }
+    uninterp spec fn from_spec(e: kestrel_crypto::DhError) -> AnyhowError;
+}
+impl vstd::std_specs::convert::FromSpecImpl<vio::Error> for AnyhowError {
+    open spec fn obeys_from_spec() -> bool { false }
+    uninterp spec fn from_spec(e: vio::Error) -> AnyhowError;
+}
+#[verifier::external_body]
+pub fn v_box_write_all(w: &mut Box<dyn VWrite>, buf: &[u8]) -> (r: vio::Result<()>) { unimplemented!() }
+#[verifier::external_body]
+pub fn v_box_flush(w: &mut Box<dyn VWrite>) -> (r: vio::Result<()>) { unimplemented!() }
+#[verifier::external_body]
+pub fn v_path_exists(p: &String) -> (r: bool) { unimplemented!() }
+#[verifier::external_body]
+pub fn v_opt_as_deref<'a>(o: &'a Option<String>) -> (r: Option<&'a str>)
+    ensures (r is Some) == (o is Some), r matches Some(s) ==> s@ == o.unwrap()@
+{ o.as_deref() }
+pub trait VRead {}
+pub struct EncryptError;
+pub enum PassFileFormat { V1 }
+pub mod encrypt {
+    use vstd::prelude::*;
+    use super::*;
+    /// kestrel_crypto::encrypt::pass_encrypt as the CLI calls it (contract: units/crypto.vt; opaque here - only the
+    /// provenance of the `salt` ARGUMENT is checked at the call site)
+    #[verifier::external_body]
+    pub fn pass_encrypt(plaintext: &mut Box<dyn VRead>, ciphertext: &mut Box<dyn VWrite>, password: &[u8], salt: [u8; 32], file_format: PassFileFormat)
+        -> (r: Result<(), EncryptError>)
+    { unimplemented!() }
+}
